@@ -6,6 +6,7 @@ package c34
 // (osp) but it does not share any code with the tokenizer or the oracle.
 
 import (
+	"math/bits"
 	"strings"
 
 	"pgregory.net/rapid"
@@ -21,12 +22,28 @@ type gen struct {
 	exotic bool
 }
 
-func (g *gen) pick(n int, label string) int { return rapid.IntRange(0, n-1).Draw(g.t, label) }
-func (g *gen) chance(pct int, label string) bool {
-	return rapid.IntRange(0, 99).Draw(g.t, label) < pct
+// pick returns a uniformly distributed value in [0,n). rapid's integer
+// generators are deliberately biased towards small and boundary values, which
+// would make "rare" grammar branches (drawn as k < small) the most common
+// ones; fair bits from rapid.Bool() avoid that and still shrink towards 0,
+// i.e. towards the first (simplest) alternative.
+func (g *gen) pick(n int, label string) int {
+	if n <= 1 {
+		return 0
+	}
+	k := bits.Len(uint(n-1)) + 4
+	v := 0
+	for i := 0; i < k; i++ {
+		v <<= 1
+		if rapid.Bool().Draw(g.t, label) {
+			v |= 1
+		}
+	}
+	return (v * n) >> k
 }
+func (g *gen) chance(pct int, label string) bool { return g.pick(100, label) >= 100-pct }
 func (g *gen) from(pool []string, label string) string {
-	return pool[rapid.IntRange(0, len(pool)-1).Draw(g.t, label)]
+	return pool[g.pick(len(pool), label)]
 }
 func (g *gen) w(s ...string) {
 	for _, x := range s {
@@ -90,7 +107,11 @@ func (g *gen) vsep() string {
 
 var tags = []string{"a", "div", "span", "li", "ul", "p", "h1", "table", "td", "tr", "input", "button", "body", "svg", "b", "i", "em"}
 var names = []string{"btn", "active", "tab-content", "nav_item", "dark", "x1", "is-open", "a", "b", "c", "-x", "hover", "not", "and", "url", "important", "n", "e2", "café"}
-var exoticNames = []string{"sm\\:flex", "w-1\\/2", "a\\.b", "\\31 0", "hover\\:", "md\\:", "x\\+y", "\\31", "a\\ b", "p\\>q"}
+// A hexadecimal escape is always written with its terminating space ("\\31 "
+// is the identifier "1"); without it the whitespace the grammar puts after the
+// name would be swallowed by the escape and the text would not mean what the
+// generator intends.
+var exoticNames = []string{"sm\\:flex", "w-1\\/2", "a\\.b", "\\31 0", "hover\\:", "md\\:", "x\\+y", "\\31 ", "a\\ b", "p\\>q", "x\\000031 ", "q\\,"}
 
 func (g *gen) name() string {
 	if g.exotic && g.chance(20, "escname") {
